@@ -356,4 +356,47 @@ theorem lookupKeys_mem {st : State} {m : Metric} {keys : List Bytes} {kids : Lis
           · obtain ⟨k', hm, hs⟩ := i2 kid' hk'
             exact ⟨k', List.mem_cons_of_mem _ hm, hs⟩
 
+/-! ### small facts used by the property theorems -/
+
+theorem validOps_of_writes {ops1 ops2 : List Op} (hw : writesOf ops1 = writesOf ops2) (hv : ValidOps ops1) :
+    ValidOps ops2 := by
+  have key : ∀ ops : List Op, ∀ m t, Op.write m t ∈ ops ↔ (m, t) ∈ writesOf ops := by
+    intro ops
+    induction ops with
+    | nil => intro m t; simp [writesOf]
+    | cons op r ih =>
+      intro m t
+      cases op with
+      | write m' t' => simp [writesOf, ih]
+      | place s => simp [writesOf, ih]
+  intro m t hm
+  exact hv m t ((key ops1 m t).mpr (hw ▸ (key ops2 m t).mp hm))
+
+theorem numWrites_eq (ops : List Op) : numWrites ops = (writesOf ops).length := by
+  induction ops with
+  | nil => rfl
+  | cons op r ih => cases op <;> simp [numWrites, writesOf, ih]
+
+/-- the values reported for a series are determined by its tags: whatever the index state, two
+answers for the same series carry the same strings -/
+theorem groupValuesOK_unique {t : Tags} (hnd : (t.map Prod.fst).Nodup) (keys : List Bytes)
+    (a b : List (ValId × Option Bytes)) (ha : groupValuesOK t keys a) (hb : groupValuesOK t keys b) :
+    a.map (·.2) = b.map (·.2) := by
+  induction keys generalizing a b with
+  | nil =>
+    cases a <;> cases b <;> simp_all [groupValuesOK]
+  | cons k ks ih =>
+    cases a with
+    | nil => simp [groupValuesOK] at ha
+    | cons x xs =>
+      cases b with
+      | nil => simp [groupValuesOK] at hb
+      | cons y ys =>
+        simp only [groupValuesOK] at ha hb
+        obtain ⟨⟨v1, hv1, e1⟩, ha'⟩ := ha
+        obtain ⟨⟨v2, hv2, e2⟩, hb'⟩ := hb
+        have := nodup_keys_unique hnd hv1 hv2
+        subst this
+        simp only [List.map_cons, e1, e2, ih xs ys ha' hb']
+
 end LinVerif.TagFilter
